@@ -24,7 +24,7 @@ fn seg_dist(p: &nalgebra::Vector3<f64>, a: &nalgebra::Vector3<f64>, b: &nalgebra
 fn pose_close(a: &Pose, b: &Pose) -> bool { (a.translation.vector - b.translation.vector).norm() <= 1e-6 && a.rotation.angle_to(&b.rotation) <= 1e-6 }
 
 pub struct Scene { pub name: String, pub include: bool, pub cost: f64, pub depth: usize, pub step_m: f64, pub q_land: Joints, pub from: Joints, pub offs: Vec<[f64; 3]>, pub park_off: [f64; 3],
-                   pub obstacle: i32 /* -1 none, k >= 0: at the tool when the TCP is at fraction (k+1)/8 of the stroke polyline */, pub obstacle_h: f32, pub pools: Vec<usize>, pub default_coefs: bool }
+                   pub obstacle: f64 /* < 0 none, otherwise: at the tool when the TCP is at this fraction of the stroke polyline */, pub obstacle_h: f32, pub pools: Vec<usize>, pub default_coefs: bool, pub turn: f64 /* stroke pose k is additionally turned by k*turn about the tool axis */ }
 
 fn polyline_point(given: &Vec<Pose>, frac: f64) -> Pose {
     // point at `frac` of the polyline through the given poses (by segment index, then linearly inside the segment)
@@ -37,28 +37,30 @@ fn polyline_point(given: &Vec<Pose>, frac: f64) -> Pose {
 pub fn run_scene(sc: &Scene, bad: &mut Vec<String>) -> usize {
     let probe = robot(vec![]);
     let land = probe.forward(&sc.q_land);
-    let s: Vec<Pose> = sc.offs.iter().map(|d| shifted(&land, *d)).collect();
-    let park = shifted(&land, sc.park_off);
+    let turned = |p: Pose, k: usize| -> Pose { Pose::from_parts(p.translation, p.rotation * nalgebra::UnitQuaternion::from_axis_angle(&nalgebra::Vector3::z_axis(), sc.turn * k as f64)) };
+    let s: Vec<Pose> = sc.offs.iter().enumerate().map(|(k, d)| turned(shifted(&land, *d), k + 1)).collect();
+    let park = turned(shifted(&land, sc.park_off), sc.offs.len());
     let from = sc.from;
     let given: Vec<Pose> = std::iter::once(land).chain(s.iter().cloned()).chain(std::iter::once(park)).collect();
-    let env = if sc.obstacle >= 0 {
-        let at = polyline_point(&given, (sc.obstacle as f64 + 1.0) / 8.0);
+    let env = if sc.obstacle >= 0.0 {
+        let at = polyline_point(&given, sc.obstacle);
         let q = probe.kinematics.inverse_continuing(&at, &sc.q_land); if q.is_empty() { return 0; }
         let t = probe.forward_with_joint_poses(&q[0])[5].translation;
         vec![CollisionBody { mesh: cube(sc.obstacle_h), pose: Isometry3::translation(t.x as f32, t.y as f32, t.z as f32) }]
     } else if sc.name == "grazing" { vec![CollisionBody { mesh: cube(0.02), pose: Isometry3::translation(land.translation.x as f32 + 0.06, land.translation.y as f32 + 0.2, land.translation.z as f32) }] }
     else { vec![CollisionBody { mesh: cube(0.05), pose: Isometry3::translation(5.0, 5.0, 5.0) }] };
     let k = robot(env);
+    if std::env::var("C12_DEBUG").is_ok() { let mut q = sc.q_land; for (i, g) in given.iter().enumerate() { let sols = k.kinematics.inverse_continuing(g, &q); if sols.is_empty() { eprintln!("  given pose {} unreachable", i); break; } q = sols[0]; eprintln!("  given pose {}: collides={} details={:?}", i, k.collides(&q), k.collision_details(&q)); } }
     let cons = k.constraints().clone().expect("limits");
     let coefs: Joints = if sc.default_coefs { DEFAULT_TRANSITION_COSTS } else { [2.0, 1.5, 1.25, 0.75, 0.5, 3.0] };
     let planner = Cartesian { robot: &k, check_step_m: sc.step_m, check_step_rad: 0.05, max_transition_cost: sc.cost, transition_coefficients: coefs, linear_recursion_depth: sc.depth,
-        rrt: RRTPlanner { step_size_joint_space: 0.05, max_try: 2000, debug: false }, include_linear_interpolation: sc.include, debug: false };
+        rrt: RRTPlanner { step_size_joint_space: 0.05, max_try: 2000, debug: false }, include_linear_interpolation: sc.include, debug: std::env::var("C12_DEBUG").is_ok() };
     let mut outcomes: Vec<bool> = Vec::new(); let mut cases = 0;
     for threads in sc.pools.iter().cloned() {
         let pool = rayon::ThreadPoolBuilder::new().num_threads(threads).build().unwrap();
         let res = pool.install(|| planner.plan(&from, &land, s.clone(), &park)); cases += 1;
         outcomes.push(res.is_ok());
-        let path: Vec<AnnotatedJoints> = match res { Ok(p) => p, Err(_) => continue };
+        let path: Vec<AnnotatedJoints> = match res { Ok(p) => p, Err(e) => { if std::env::var("C12_DEBUG").is_ok() { eprintln!("  scene {} threads {}: plan failed: {}", sc.name, threads, e); } continue } };
         let tag = format!("scene {} include={} cost={} depth={} step_m={} obstacle={} threads={}", sc.name, sc.include, sc.cost, sc.depth, sc.step_m, sc.obstacle, threads);
         if path.is_empty() { bad.push(format!("{}: empty path reported as success", tag)); continue; }
         for (i, w) in path.iter().enumerate() {
@@ -103,7 +105,7 @@ pub fn run_scene(sc: &Scene, bad: &mut Vec<String>) -> usize {
     }
     if sc.name != "random" { println!("note=scene {} include={} outcomes={:?}", sc.name, sc.include, outcomes); }
     if outcomes.iter().any(|o| *o) { SUCC.fetch_add(1, std::sync::atomic::Ordering::Relaxed); }
-    if sc.obstacle < 0 && outcomes.iter().any(|o| *o != outcomes[0]) { bad.push(format!("scene {} (no obstacle on the stroke): success depends on the pool size / run: {:?}", sc.name, outcomes)); }
+    if sc.obstacle < 0.0 && outcomes.iter().any(|o| *o != outcomes[0]) { bad.push(format!("scene {} (no obstacle on the stroke): success depends on the pool size / run: {:?}", sc.name, outcomes)); }
     if sc.name == "free" && !outcomes[0] { bad.push("scene free: planning fails in an empty cell (vacuous battery)".into()); }
     cases
 }
@@ -116,13 +118,18 @@ impl Lcg { fn next(&mut self) -> f64 { self.0 = self.0.wrapping_mul(636413622384
 pub fn c12(c: &Case) {
     let mut bad: Vec<String> = Vec::new(); let mut cases = 0;
     let want = c.s("scene");
-    let base = |name: &str, include: bool, cost: f64, depth: usize, step_m: f64, obstacle: i32, h: f32| Scene { name: name.to_string(), include, cost, depth, step_m, q_land: [0.2, 0.3, -0.2, 0.4, 0.8, -0.3], from: [0.5, 0.1, -0.1, 0.4, 0.8, -0.3],
-        offs: vec![[0.0, 0.0, -0.05], [0.06, 0.0, -0.05], [0.06, 0.06, -0.05]], park_off: [0.06, 0.06, 0.0], obstacle, obstacle_h: h, pools: vec![1, 4, 2], default_coefs: false };
-    let all = [base("free", true, 0.2, 6, 0.02, -1, 0.0), base("free", false, 0.2, 6, 0.02, -1, 0.0), base("grazing", true, 0.2, 6, 0.02, -1, 0.0),
-               base("blocking", true, 0.2, 6, 0.02, 3, 0.02), base("midway", true, 0.2, 6, 0.01, 2, 0.008), base("midway", false, 0.2, 6, 0.01, 2, 0.008),
-               base("rrtclose", true, 1e-4, 0, 0.05, -1, 0.0), base("bisect", true, 0.012, 6, 0.05, -1, 0.0),
+    let base = |name: &str, include: bool, cost: f64, depth: usize, step_m: f64, obstacle: f64, h: f32| Scene { name: name.to_string(), include, cost, depth, step_m, q_land: [0.2, 0.3, -0.2, 0.4, 0.8, -0.3], from: [0.5, 0.1, -0.1, 0.4, 0.8, -0.3],
+        offs: vec![[0.0, 0.0, -0.05], [0.06, 0.0, -0.05], [0.06, 0.06, -0.05]], park_off: [0.06, 0.06, 0.0], obstacle, obstacle_h: h, pools: vec![1, 4, 2], default_coefs: false, turn: 0.0 };
+    let all = [base("free", true, 0.2, 6, 0.02, -1.0, 0.0), base("free", false, 0.2, 6, 0.02, -1.0, 0.0), base("grazing", true, 0.2, 6, 0.02, -1.0, 0.0),
+               base("blocking", true, 0.2, 6, 0.02, 0.5, 0.02), base("midway", true, 0.2, 6, 0.01, 0.375, 0.008), base("midway", false, 0.2, 6, 0.01, 0.375, 0.008),
+               base("rrtclose", true, 1e-4, 0, 0.05, -1.0, 0.0), base("bisect", true, 0.012, 6, 0.05, -1.0, 0.0),
+               // coarse steps: the first waypoint after LAND is the first stroke pose itself, and only that one touches a small body
+               Scene { offs: vec![[0.0, 0.0, -0.09], [0.09, 0.0, -0.09], [0.09, 0.09, -0.09]], park_off: [0.09, 0.2, -0.09], ..base("firststep", true, 2.0, 6, 0.1, 0.25, 0.02) },
+               Scene { offs: vec![[0.0, 0.0, -0.09], [0.09, 0.0, -0.09], [0.09, 0.09, -0.09]], park_off: [0.09, 0.2, -0.09], ..base("firststep", false, 2.0, 6, 0.1, 0.25, 0.02) },
+               // the tool re-orients faster than it moves: the rotation decides the number of interpolated poses
+               Scene { turn: 0.35, ..base("reorient", true, 0.3, 6, 0.02, -1.0, 0.0) }, Scene { turn: 0.6, ..base("reorient", true, 0.3, 6, 0.05, -1.0, 0.0) },
                // the landing solution continued from the start is an equivalent angle BELOW the lower limit of J1 (2.9 - 2 pi): a straight relocation would cross the forbidden gap
-               Scene { q_land: [2.9, 0.3, -0.2, 0.4, 0.8, -0.3], from: [-2.9, 0.3, -0.2, 0.4, 0.8, -0.3], ..base("limits", true, 0.2, 6, 0.02, -1, 0.0) }];
+               Scene { q_land: [2.9, 0.3, -0.2, 0.4, 0.8, -0.3], from: [-2.9, 0.3, -0.2, 0.4, 0.8, -0.3], ..base("limits", true, 0.2, 6, 0.02, -1.0, 0.0) }];
     for sc in all.iter() {
         if !want.is_empty() && want != sc.name { continue; }
         if let Some(inc) = c.vo("include") { if (inc[0] != 0.0) != sc.include { continue; } }
@@ -139,7 +146,7 @@ pub fn c12(c: &Case) {
             let last = *offs.last().unwrap();
             let include = match c.vo("include") { Some(v) => v[0] != 0.0, None => r.next() < 0.6 };
             let sc = Scene { name: "random".to_string(), include, cost: r.pick(&[0.01, 0.03, 0.1, 0.3]), depth: r.pick(&[0usize, 1, 3, 6]), step_m: r.pick(&[0.01, 0.03, 0.1, 0.5]),
-                q_land: ql, from, offs, park_off: [last[0], last[1], 0.0], obstacle: r.pick(&[-1, -1, 0, 2, 4, 6]), obstacle_h: r.pick(&[0.008f32, 0.02]), pools: vec![r.pick(&[1usize, 3])], default_coefs: r.next() < 0.3 };
+                q_land: ql, from, offs, park_off: [last[0], last[1], 0.0], obstacle: if r.next() < 0.35 { -1.0 } else { r.pick(&[0.05f64, 0.25, 0.5, 0.75]) + r.next() * 0.2 }, obstacle_h: r.pick(&[0.008f32, 0.02]), pools: vec![r.pick(&[1usize, 3])], default_coefs: r.next() < 0.3, turn: r.pick(&[0.0, 0.0, 0.2, 0.5]) };
             let before = bad.len(); cases += run_scene(&sc, &mut bad); if bad.len() == before { ok += 1; }
         }
         println!("note=random scenes without finding {} ; scenes (all kinds) in which planning succeeded {}", ok, SUCC.load(std::sync::atomic::Ordering::Relaxed));
